@@ -15,7 +15,7 @@ use serde_json::{json, Value};
 const STREAM: u64 = 4;
 
 pub fn run(ctx: &Ctx) -> Report {
-    let n = ctx.cases(300, 8_000);
+    let n = ctx.cases(300, 3_000);
     let local = run_cases(ctx, n, |case, l| one_case(ctx, case, l));
     let mut rep = Report::new(
         "fault_enumeration",
